@@ -335,7 +335,7 @@ pub fn fault(r: &[u8], k: u64) -> Vec<u8> {
 }
 
 pub fn run_c13(rep: &mut Report, thorough: bool) {
-    rep.rule = "request grammar product (9 methods x 11 targets incl. non-UTF-8 and lengths 1..1300 (the longest still fits one segment) x 4 versions x header lists of length 0..2 over 4 headers x 3 line-end modes x with/without body) and, for a core subset, EVERY single-byte deletion, every substitution and insertion from an 11-symbol alphabet at every position, and every proper prefix; over UDP and a fresh validated TCP flow, 2 port pairs, both IP versions; each judged by the independent recogniser of the statement's grammar and the response validator (status line, WWW-Authenticate, Content-Length == body bytes)".into();
+    rep.rule = "request grammar product (9 methods x 11 targets incl. non-UTF-8 and lengths 1..1300 (the longest still fits one segment) x 4 versions x header lists of length 0..2 over 4 headers x 3 line-end modes x with/without body) and, for a core subset, EVERY single-byte deletion, every substitution and insertion from an 11-symbol alphabet at every position, and every proper prefix; over UDP and a fresh validated TCP flow, 2 port pairs, both IP versions; each judged by the independent recogniser of the statement's grammar and the response validator (status line, WWW-Authenticate, Content-Length == body bytes); ADDED LATER: every 1-cut (and 2-cuts in the head; thorough: all 2-cuts) of core requests over TCP, keep-alive (second and third request on a connection), 300-request connections, depth-2 pair histories of whole / truncated / corrupted datagrams, thorough: all 65536 values of every adjacent byte pair of 3 requests".into();
     rep.assumptions = vec!["abstentions (lenient corners the statement does not settle): empty version numerals, a CR not followed by LF, request-target containing CR/LF, header line starting with ':'".into()];
     let reqs = http_requests();
     let core = http_core();
@@ -472,7 +472,7 @@ fn label_layouts() -> Vec<Vec<Vec<u8>>> {
 }
 
 pub fn run_c14(rep: &mut Report, thorough: bool) {
-    rep.rule = "DNS queries over UDP: id all 65536; flag word all 65536 (QR=0 half must be answered with opcode and RD echoed, QR=1 half must be silent); all 65536 qtypes with class IN and all 65536 qclasses with type A (only (1,1) answered); question counts 1..4 (thorough 1..8) over 28 label layouts (root, 1x1, 1x63, 2 labels, 4 labels, 127x1 = 255 bytes, 4 labels = 255 bytes; label bytes a - 0 ff); mixed lists with one non-IN/A question at each position; every proper prefix of each message; 6 destination addresses; judged by the independent decoder (id, opcode, RD, QR, question echo, counts, one IN/A answer per question with RDATA = destination, full parse without trailing bytes)".into();
+    rep.rule = "DNS queries over UDP: id all 65536; flag word all 65536 (QR=0 half must be answered with opcode and RD echoed, QR=1 half must be silent); all 65536 qtypes with class IN and all 65536 qclasses with type A (only (1,1) answered); question counts 1..4 (thorough 1..8) over 28 label layouts (root, 1x1, 1x63, 2 labels, 4 labels, 127x1 = 255 bytes, 4 labels = 255 bytes; label bytes a - 0 ff); mixed lists with one non-IN/A question at each position; every proper prefix of each message; 6 destination addresses; judged by the independent decoder (id, opcode, RD, QR, question echo, counts, one IN/A answer per question with RDATA = destination, full parse without trailing bytes); ADDED LATER: the same query bytes to 6 destinations back to back, pair histories of datagram variants, thorough: label-length grids, every name length, all label bytes, all length octets, qtype x qclass and id x flags products (16.7 M each), all byte-pair values of 2 queries".into();
     rep.assumptions = vec!["abstentions: compression pointers / zero bytes inside labels / label length > 63 in queries; queries carrying records (EDNS); zero questions; trailing bytes; DNS over IPv6 (statement: UDP/IPv4)".into()];
     let layouts = label_layouts();
     let p4 = Path { tcp: false, v6: false, ports: 0 };
@@ -518,6 +518,17 @@ pub fn run_c14(rep: &mut Report, thorough: bool) {
         sweep_app(rep, &env, &format!("dns-prefixes-{}", tag), "every proper prefix of 3 queries", *offs.last().unwrap(), |i| {
             let k = offs.partition_point(|o| *o <= i) - 1;
             (p4, msgs[k][..(i - offs[k]) as usize].to_vec())
+        });
+        // label content: every byte value at the first / middle / last position of a label (the owner
+        // name of the answer is the queried name byte for byte, whatever its bytes)
+        sweep_app(rep, &env, &format!("dns-label-bytes-q-{}", tag), "every byte value 0..255 at 3 positions of a 5-byte label x {first, second} question", 256 * 3 * 2, |i| {
+            let d = unrank(i, &[256, 3, 2]);
+            let mut l = b"hello".to_vec();
+            l[[0usize, 2, 4][d[1] as usize]] = d[0] as u8;
+            let special = (vec![l, b"oRg".to_vec()], 1u16, 1u16);
+            let plain = (dns_labels("a.b"), 1u16, 1u16);
+            let qs = if d[2] == 0 { vec![special, plain] } else { vec![plain, special] };
+            (p4, appdns::build_query(0x0e0f, 0x0100, &qs))
         });
         crate::props::pairs::pair_histories(rep, &env.cfg, &format!("dns-pair-histories-{}", tag), &crate::props::pairs::datagram_variants("dns", &[appdns::build_query(5, 0x0100, &q1), appdns::build_query(6, 0, &[(dns_labels("a.b"), 1, 1), (dns_labels("c"), 1, 1)]), appdns::build_query(7, 0x0100, &[(dns_labels("version.bind"), 16, 3)])]));
         // destination addresses
@@ -657,7 +668,7 @@ pub fn run_c14(rep: &mut Report, thorough: bool) {
 /* ------------------------------------------------------------------ C15 STUN */
 
 pub fn run_c15(rep: &mut Report, thorough: bool) {
-    rep.rule = "STUN: message-type word all 65536 values; transaction id every byte position x 256 values and all-00 / all-ff / all-2a; the published request shapes (magic cookie with attributes, cookie-less empty, cookie-less CHANGE-REQUEST); attribute lists of 0..3 attributes over types {0001,0003,0006,8022,ffff} x declared lengths {0,4,8,12,20} (well-formed) and every malformed declared/actual combination (abstained, C01 only), in short forms and in the >=256-byte form; CHANGE-REQUEST flag byte all 256 values x destination ports {all 65536 for 4 flag values; 256 ports for all flag values}; all 65536 source ports; both IP versions, 4 source addresses; over UDP and TCP; judged by the independent STUN decoder (type 0x0101, id, length, exactly one MAPPED-ADDRESS = observed family/address/port, reply from dport+1 iff change-port)".into();
+    rep.rule = "STUN: message-type word all 65536 values; transaction id every byte position x 256 values and all-00 / all-ff / all-2a; the published request shapes (magic cookie with attributes, cookie-less empty, cookie-less CHANGE-REQUEST); attribute lists of 0..3 attributes over types {0001,0003,0006,8022,ffff} x declared lengths {0,4,8,12,20} (well-formed) and every malformed declared/actual combination (abstained, C01 only), in short forms and in the >=256-byte form; CHANGE-REQUEST flag byte all 256 values x destination ports {all 65536 for 4 flag values; 256 ports for all flag values}; all 65536 source ports; both IP versions, 4 source addresses; over UDP and TCP; judged by the independent STUN decoder (type 0x0101, id, length, exactly one MAPPED-ADDRESS = observed family/address/port, reply from dport+1 iff change-port); ADDED LATER: later messages on a TCP connection identified as STUN (all 65536 type words), bytes after the delimited message (conditional verdict), 0..120 attributes before a CHANGE-REQUEST, IPv4-mapped source addresses, 300-message connections, pair histories, thorough: all attribute type words, CHANGE-REQUEST value halves, byte-pair neighbourhoods".into();
     rep.assumptions = vec![
         "requests with malformed TLVs, a length field that does not match the datagram, several CHANGE-REQUESTs or unpadded attributes are abstained on".into(),
         "well-formed requests that the matcher misses because of the listed wildcard-shadowing events (D12) are reported as KNOWN-FINDING under this property".into(),
@@ -829,6 +840,17 @@ pub fn run_c15(rep: &mut Report, thorough: bool) {
                 (Path { tcp: true, v6: d[2] == 1, ports: 1 }, vec![big.clone(), m])
             });
         }
+        // cookie-less requests whose transaction id reads as a DNS query (polyglots): STUN answers
+        {
+            let pls = payloads();
+            let poly: Vec<Vec<u8>> = pls.iter().filter(|p| p.name.contains("dns-polyglot")).map(|p| p.bytes.clone()).collect();
+            let mut more = poly.clone();
+            // 28-byte CHANGE-REQUEST form / 20-byte form with other DNS-shaped ids
+            more.push([&[0u8, 1, 0, 8, 0, 1, 0, 0, 0, 0, 0, 0, 1, b'a', 0, 0, 1, 0, 1, 0][..], &stun_attr(3, &[0, 0, 0, 2])[..]].concat());
+            more.push(vec![0, 1, 0, 0, 0, 1, 0, 0, 0, 0, 0, 0, 3, b'w', b'w', b'w', 0, 0, 1, 0]);
+            let n = more.len() as u64;
+            sweep_app(rep, &env, &format!("stun-dns-polyglots-{}", tag), "cookie-less Binding requests whose bytes also parse as a DNS query x {UDP v4, UDP v6}", n * 2, |i| (if i % 2 == 0 { pu4 } else { pu6 }, more[(i / 2) as usize].clone()));
+        }
         // attribute count: k unknown attributes before a CHANGE-REQUEST, k = 0..120
         {
             let big = stun_magic(&stun_attr(0x8022, &[b'x'; 256]), &ID12);
@@ -894,12 +916,13 @@ pub fn run_c15(rep: &mut Report, thorough: bool) {
 /* ------------------------------------------------------------------ C16 RPC */
 
 pub fn run_c16(rep: &mut Report, thorough: bool) {
-    rep.rule = "ONC-RPC calls: all 256 programs 99840..100095 x versions {0,1,2,3,4,5,104316,0xffffffff} x all 256 procedures (524288 calls) over UDP/IPv4 (quick) and over UDP and TCP, IPv4 and IPv6 (thorough); XID every byte position x 256 values; credential lengths {0,4,8,12,400} x verifier lengths {0,4,8}; all 65536 destination ports for GETPORT / GETADDR / DUMP; 6 destination addresses per version; judged by the independent XDR reader (XID, REPLY, MSG_ACCEPTED, null verifier, alignment, padded strings, record mark, and the precedence PROG_MISMATCH(2,4) > NULL > portmapper GETPORT/GETADDR/DUMP advertising the contacted endpoint > PROC_UNAVAIL > PROG_UNAVAIL)".into();
+    rep.rule = "ONC-RPC calls: all 256 programs 99840..100095 x versions {0,1,2,3,4,5,104316,0xffffffff} x all 256 procedures (524288 calls) over UDP/IPv4 (quick) and over UDP and TCP, IPv4 and IPv6 (thorough); XID every byte position x 256 values; credential lengths {0,4,8,12,400} x verifier lengths {0,4,8}; all 65536 destination ports for GETPORT / GETADDR / DUMP; 6 destination addresses per version; judged by the independent XDR reader (XID, REPLY, MSG_ACCEPTED, null verifier, alignment, padded strings, record mark, and the precedence PROG_MISMATCH(2,4) > NULL > portmapper GETPORT/GETADDR/DUMP advertising the contacted endpoint > PROC_UNAVAIL > PROG_UNAVAIL); ADDED LATER: cuts at every offset of TCP calls, destination alphabets incl. loopback / IPv4-mapped / IPv4-compatible IPv6, pair histories, thorough: program x version x procedure over 16 edge words each, credential x verifier lengths 0..400, XID halves, byte-pair neighbourhoods".into();
     rep.assumptions = vec![
         "credential / verifier lengths that are not multiples of 4 or exceed 400 are abstained on".into(),
         "calls whose XID bytes hit a listed wildcard-shadowing event (D12) are reported as KNOWN-FINDING under this property".into(),
     ];
-    let vers = [0u32, 1, 2, 3, 4, 5, 104316, 0xffffffff];
+    // incl. values whose low byte / low half is an accepted version (truncation aliases)
+    let vers = [0u32, 1, 2, 3, 4, 5, 104316, 0xffffffff, 0x102, 0x10003, 0x0100_0004, 0xffff_ff02];
     let pu4 = Path { tcp: false, v6: false, ports: 0 };
     let paths = [pu4, Path { tcp: true, v6: false, ports: 0 }, Path { tcp: false, v6: true, ports: 1 }, Path { tcp: true, v6: true, ports: 1 }];
     let mk = |p: Path, xid: u32, prog: u32, v: u32, pr: u32, cred: &[u8], verf: &[u8]| -> Vec<u8> {
@@ -1106,7 +1129,7 @@ fn sequences(n_alpha: usize, maxlen: usize) -> Vec<Vec<usize>> {
 }
 
 pub fn run_c17(rep: &mut Report, thorough: bool) {
-    rep.rule = "SMB1: PID-high, PID-low, TID, UID, MID each over all 65536 values; flags all 256; command all 256; dialect lists = ALL sequences of length 1..4 over 5 dialect strings (780 lists: every order, duplicates, unknown-only); session-setup blob lengths 1..64. SMB2: MessageId / AsyncId / SessionId every byte position x 256; response flag; command all 65536; dialect lists = ALL sequences of length 1..4 over 7 revisions (2800 lists); blob lengths 1..64; client GUID byte positions. Over UDP and TCP. Judged by the independent decoder (NetBIOS length, reply flag, echoed command and correlation fields, ByteCount / blob length / buffer offset consistency, selected dialect offered)".into();
+    rep.rule = "SMB1: PID-high, PID-low, TID, UID, MID each over all 65536 values; flags all 256; command all 256; dialect lists = ALL sequences of length 1..4 over 5 dialect strings (780 lists: every order, duplicates, unknown-only); session-setup blob lengths 1..64. SMB2: MessageId / AsyncId / SessionId every byte position x 256; response flag; command all 65536; dialect lists = ALL sequences of length 1..4 over 7 revisions (2800 lists); blob lengths 1..64; client GUID byte positions. Over UDP and TCP. Judged by the independent decoder (NetBIOS length, reply flag, echoed command and correlation fields, ByteCount / blob length / buffer offset consistency, selected dialect offered); ADDED LATER: ids x 34 flag words, cuts at every offset, 300-message connections, pair histories, thorough: dialect sequences of length <= 5, every revision word, byte-pair neighbourhoods of 4 requests".into();
     rep.assumptions = vec!["abstentions: session setup with a zero-length blob; negotiate with count fields that do not match the list; NetBIOS length that does not match the message; SMB2 negotiate offering only 0x02ff / 0x0310".into()];
     let pu = Path { tcp: false, v6: false, ports: 0 };
     let pt = Path { tcp: true, v6: true, ports: 1 };
@@ -1394,7 +1417,7 @@ pub fn run_c17(rep: &mut Report, thorough: bool) {
 /* ------------------------------------------------------------------ C18 SSH / Gh0st */
 
 pub fn run_c18(rep: &mut Report, thorough: bool) {
-    rep.rule = "SSH: for each of the two signature prefixes, EVERY string of length <= 5 (thorough: <= 7) over the 9-symbol alphabet {'-', '.', '0', 'a', SP, CR, LF, 00, ff} appended after the prefix, and the same set with a well-formed tail '-x CR LF' appended; the unit tests' banners with every single-byte fault; Gh0st: magic followed by every tail of length <= 3 over the same alphabet, a captured request, and tails of 1, 2, 4 KB; over UDP and TCP; judged by the independent recogniser of 'SSH-<digits and dots>-<software>[ SP comment] CR LF' (reply exactly 'SSH-2.0-1 CR LF') and the Gh0st frame decoder (declared total length, zlib body inflating to the declared length)".into();
+    rep.rule = "SSH: for each of the two signature prefixes, EVERY string of length <= 5 (thorough: <= 7) over the 9-symbol alphabet {'-', '.', '0', 'a', SP, CR, LF, 00, ff} appended after the prefix, and the same set with a well-formed tail '-x CR LF' appended; the unit tests' banners with every single-byte fault; Gh0st: magic followed by every tail of length <= 3 over the same alphabet, a captured request, and tails of 1, 2, 4 KB; over UDP and TCP; judged by the independent recogniser of 'SSH-<digits and dots>-<software>[ SP comment] CR LF' (reply exactly 'SSH-2.0-1 CR LF') and the Gh0st frame decoder (declared total length, zlib body inflating to the declared length); ADDED LATER: cuts at every offset and two cuts in the head of every banner, 300-banner connections, pair histories, thorough: strings of length <= 7 and byte-pair neighbourhoods".into();
     rep.assumptions = vec!["abstentions: empty software string, empty comment".into()];
     let alpha: [u8; 9] = [b'-', b'.', b'0', b'a', b' ', b'\r', b'\n', 0x00, 0xff];
     let maxlen: u32 = if thorough { 7 } else { 5 };
